@@ -98,6 +98,11 @@ pub async fn handle_notify_get_or_head(
         return Err(req)
     }
 
+    // Subscribe before looking at the version. Otherwise a notification
+    // sent between the check and the subscription would be missed and we
+    // would wait for the update after that.
+    let mut notified = notify.subscribe();
+
     let wait = match need_wait(&req, history) {
         Ok(wait) => wait,
         Err(resp) => return Ok(resp),
@@ -108,7 +113,7 @@ pub async fn handle_notify_get_or_head(
         if wait { "wait" } else { "nowait" }
     });
     if wait {
-        notify.subscribe().recv().await;
+        notified.recv().await;
     }
 
     if req.is_head() {
